@@ -626,6 +626,12 @@ func (sel *Selection) Set(v val.Value) error {
 		return fmt.Errorf("%s is not a leaf", sel.Path.Meta.Ident())
 	}
 	m := sel.Path.Meta.(meta.Leafable)
+	if v != nil && sel.parent != nil {
+		// the key of a list item is what it was selected under, see editor.checkKeyLeaf
+		if err := (editor{}).checkKeyLeaf(sel.parent, m, v); err != nil {
+			return err
+		}
+	}
 	r := FieldRequest{
 		Request: Request{
 			Selection: sel,
